@@ -45,6 +45,7 @@ type FuncContract struct {
 	Pure        bool
 	Inline      bool
 	Trusted     bool
+	Functional  bool // the result is an uninterpreted function of the receiver and arguments
 	MayPanic    bool
 	Loops       map[int]*LoopContract
 	ResultNames []string
@@ -145,7 +146,7 @@ func (cs *ContractSet) forIface(name string, m *types.Func) *FuncContract {
 	return cs.ifaces[name]
 }
 
-var kwRe = regexp.MustCompile(`^(requires|ensures|modifies|pure|inline|trusted|maypanic|loop|results|params|recv|ghostmod|ghost|lemma|usebody)\b`)
+var kwRe = regexp.MustCompile(`^(requires|ensures|modifies|pure|inline|trusted|maypanic|loop|results|params|recv|ghostmod|ghost|lemma|usebody|functional)\b`)
 
 // load reads every zz_verif_contracts*.go of the loaded packages.
 func (cs *ContractSet) load(pkgs []*packages.Package) error {
@@ -306,6 +307,8 @@ func (cs *ContractSet) loadFile(path string, p *packages.Package) error {
 				for _, g := range strings.Split(rest, ",") {
 					cur.UseBody[strings.TrimSpace(g)] = true
 				}
+			case "functional":
+				cur.Functional = true
 			case "pure":
 				cur.Pure = true
 			case "inline":
